@@ -227,8 +227,9 @@ Fixpoint chain_find (fuel : nat) (t : table) (static : bool) (m : string) (n : s
       end
   end.
 
-(* ClassValue.GetMethod: instance methods up the chain first, then static methods up the chain;
-   a parent that cannot be loaded ends the search with "not found" *)
+(* ClassValue.GetMethod: instance methods up the chain first, then static methods up the chain.
+   (Outside closed tables the code differs: an unloadable parent in the FIRST walk returns "not found" at once,
+   without the static walk; the model continues.  Under `closed` no parent is unloadable.) *)
 Definition not_found_on_throw {A} (o : outcome (option A)) : outcome (option A) :=
   match o with Throw => Ok None | _ => o end.
 Definition object_method (t : table) (n m : string) : outcome (option (string * meth)) :=
@@ -306,6 +307,26 @@ Definition via_parent (t : table) (r f g : string) : outcome (option string) :=
   | Ok (Some (d, _)) => defining (parent_method t None d r g)
   | Ok None => Ok None | Throw => Throw | OutOfFuel => OutOfFuel
   end.
+
+(* static entry points: `C::f()` called from outside any class.  CallStaticMethod finds f in class d (from C
+   upwards); staticMethodFunc.Call runs it in ClassMethodContext{Class: d, StaticClass: C, SelfClass: nil}.
+   Inside that body: self::s() is d::s() (fixed by the parser), static::s() starts at StaticClass = C,
+   parent::g() starts at the parent of the lexical class d. *)
+Definition bind2s {A} (o : outcome (option (string * meth))) (k : string -> outcome (option A)) : outcome (option A) :=
+  match o with
+  | Ok (Some (d, _)) => k d
+  | Ok None => Ok None | Throw => Throw | OutOfFuel => OutOfFuel
+  end.
+Definition via_sentry_self (t : table) (c f s : string) : outcome (option string) :=
+  bind2s (static_call t c f) (fun d => defining (static_call t d s)).
+Definition via_sentry_static (t : table) (c f s : string) : outcome (option string) :=
+  bind2s (static_call t c f) (fun d => defining (static_keyword_call t (Some c) d s)).
+Definition via_sentry_parent (t : table) (c f g : string) : outcome (option string) :=
+  bind2s (static_call t c f) (fun d => defining (parent_method t None d d g)).
+
+(* catch (T1 | T2 $e): UnionType.Is — no Throwable fallback (that needs a plain class type) *)
+Definition catch_union (t : table) (t1 t2 n : string) (c : cls) : outcome bool :=
+  or_else (class_is t t1 n c) (class_is t t2 n c).
 
 (* one level deeper: the body found for `$o->f()` calls parent::g(); CallParentMethod gives the
    callee the context ClassMethodContext{Class: r, SelfClass: class g was found in,
